@@ -4,6 +4,7 @@ import (
 	"fmt"
 	"log/slog"
 	"regexp"
+	"strings"
 	"time"
 
 	"github.com/cloudflare/pint/internal/checks"
@@ -201,6 +202,10 @@ func isEnabled(enabledChecks, disabledChecks []string, rule parser.Rule, name st
 }
 
 func strictRegex(s string) *regexp.Regexp {
+	if strings.Contains(s, "|") {
+		// Alternation binds weaker than anchors: ^foo|bar$ would match "foobaz", group it first.
+		return regexp.MustCompile("^(?:" + s + ")$")
+	}
 	return regexp.MustCompile("^" + s + "$")
 }
 
